@@ -63,12 +63,12 @@ F(comp, cnd, prop, pnd, tm, param, qnd, ptm) ==
 Filters ==
     {F(k, b, "", FALSE, NoTm, "", FALSE, NoTm) : k \in {"VEVENT", "VTODO"}, b \in BOOLEAN}
     \cup {F("VEVENT", FALSE, p, b, NoTm, "", FALSE, NoTm) : p \in {"SUMMARY", "ATTENDEE", "RRULE"}, b \in BOOLEAN}
-    \cup {F("VEVENT", FALSE, "SUMMARY", FALSE, tm, "", FALSE, NoTm) : tm \in Tms({"meet", "Meeting", "xyz", "NONASCII", "NONASCII-UP"})}
+    \cup {F("VEVENT", FALSE, "SUMMARY", FALSE, tm, "", FALSE, NoTm) : tm \in Tms({"meet", "Meeting", "xyz", "NONASCII", "NONASCII-UP", "ESCAPED", "ESCAPED-UP", "FOLDED"})}
     \cup {F("VEVENT", FALSE, "ATTENDEE", FALSE, NoTm, "PARTSTAT", b, NoTm) : b \in BOOLEAN}
     \cup {F("VEVENT", FALSE, "ATTENDEE", FALSE, NoTm, "PARTSTAT", FALSE, tm) : tm \in Tms({"ACC", "accepted"})}
 
 Comp(kind, s, a) == [kind |-> kind, summary |-> s, att |-> a]
-EventVariants == {Comp("VEVENT", s, a) : s \in {"", "Meeting", "meeting notes", "NONASCII", "RECURRING"},
+EventVariants == {Comp("VEVENT", s, a) : s \in {"", "Meeting", "meeting notes", "NONASCII", "RECURRING", "ESCAPED", "FOLDED"},
                                          a \in {"none", "plain", "accepted", "declined"}}
 Objects == {{e} : e \in EventVariants}
            \cup {{Comp("VTODO", "Meeting", "none")}}
